@@ -103,6 +103,19 @@ fn uncovered_variants(o: &CanonicalJsonObject, field: &str, rng: &mut Rng) -> Ve
     let mut c = o.clone();
     c.insert(field.to_owned(), cjv(gen_canonical_value(rng, 2)));
     out.push(c);
+    // the shapes these fields really have on the wire: `unsigned` of a redacted event, of a state event
+    // with `prev_content`, of an aged event; `signatures` / `hashes` of several servers / algorithms
+    for v in [
+        json!({"redacted_because": {"type": "m.room.redaction", "sender": "@m:h", "redacts": "$x", "content": {"reason": "spam"}}}),
+        json!({"redacted_because": {}, "age": 2}),
+        json!({"prev_content": {"membership": "invite", "body": "x".repeat(300)}, "replaces_state": "$p", "age_ts": 7}),
+        json!({"a.example": {"ed25519:1": "c2ln"}, "b.example": {"ed25519:k": "c2ln", "rsa:1": "x"}}),
+        json!({"sha256": "n4bQgYhMfWWaL+qgxVrQFaO/TxsrC4Is0V1sFbDwCgg", "md5": "x"}),
+    ] {
+        let mut d = o.clone();
+        d.insert(field.to_owned(), cjv(v));
+        out.push(d);
+    }
     out
 }
 
@@ -257,6 +270,36 @@ fn run_ref(ver: u32, o: CanonicalJsonObject, req: &str) -> Outcome {
                 if !keeps && r != imp {
                     t3.push(format!("room version {ver}: content key `{k}` of {ty} is stripped by redaction per the specification, but changing it changes the reference hash"));
                 }
+            }
+        }
+    }
+    // the same at the top level: the twelve keys every version keeps, `origin` / `membership` /
+    // `prev_state` kept up to room version 10 only, every other key stripped (`hashes` is kept by redaction
+    // and covered; `signatures` / `unsigned` are removed before hashing and are handled above)
+    if imp.starts_with("ok ") {
+        for k in ["event_id", "type", "room_id", "sender", "state_key", "content", "hashes", "depth", "prev_events",
+                  "auth_events", "origin_server_ts", "origin", "membership", "prev_state", "redacts", "age_ts",
+                  "prev_content", "replaces_state", "outlier", "destination"] {
+            if !o.contains_key(k) || k == "type" || k == "content" {
+                continue; // changing `type` / `content` wholesale changes which rule applies
+            }
+            let keeps = match k {
+                "origin" | "membership" | "prev_state" => ver <= 10,
+                "redacts" | "age_ts" | "prev_content" | "replaces_state" | "outlier" | "destination" => false,
+                _ => true,
+            };
+            let mut var = o.clone();
+            let new = if o.get(k) == Some(&CanonicalJsonValue::String("changed".into())) { "changed2" } else { "changed" };
+            var.insert(k.to_owned(), CanonicalJsonValue::String(new.into()));
+            let r = cls_content(&reference_hash(&var, &rules));
+            if !r.starts_with("ok ") {
+                continue;
+            }
+            if keeps && r == imp {
+                t3.push(format!("room version {ver}: top-level key `{k}` survives redaction per the specification, but changing it does not change the reference hash"));
+            }
+            if !keeps && r != imp {
+                t3.push(format!("room version {ver}: top-level key `{k}` is stripped by redaction per the specification, but changing it changes the reference hash"));
             }
         }
     }
@@ -820,7 +863,10 @@ fn gen(rng: &mut Rng, n: usize, tier: &str) -> Vec<Req> {
                 }
             }
             let e = to_cj_obj(json!({"type": ty, "sender": "@a:a.example", "state_key": "", "room_id": "!r:a.example",
-                "origin_server_ts": 1, "depth": 3, "prev_events": [], "auth_events": [], "content": Value::Object(c)}));
+                "origin_server_ts": 1, "depth": 3, "prev_events": [], "auth_events": [], "content": Value::Object(c),
+                "origin": "a.example", "membership": "join", "prev_state": [], "redacts": "$x:a.example", "age_ts": 5,
+                "prev_content": {"x": 1}, "replaces_state": "$p:a.example", "outlier": false, "destination": "b.example",
+                "unsigned": {"redacted_because": {"type": "m.room.redaction"}}}));
             v.push(Req::new(req_ref(ver, &e), "ref.cells"));
         }
     }
